@@ -45,6 +45,8 @@ var (
 	yodaRE     = regexp.MustCompile(`^consider to change order in expression to (.*)$`)
 	quoteRepl  = regexp.MustCompile(`^replace '(.*)' with '(.*)'$`)
 	suggestion = regexp.MustCompile(`^suggestion: (.*)$`)
+	considerRe = regexp.MustCompile(`^consider replacing (.+) with (.+)$`)
+	writeByte  = regexp.MustCompile(`^consider writing single byte rune .* with (.+)$`)
 	couldRepl  = regexp.MustCompile(`^(func.*) could be replaced with (func.*)$`)
 )
 
@@ -62,6 +64,11 @@ func Segments(text string) (orig, repl string, ok bool) {
 	case quoteRepl.MatchString(text):
 		m := quoteRepl.FindStringSubmatch(text)
 		return m[1], m[2], true
+	case considerRe.MatchString(text) && !strings.HasPrefix(text, "consider replacing with"):
+		m := considerRe.FindStringSubmatch(text)
+		return m[1], m[2], true
+	case writeByte.MatchString(text):
+		return "", writeByte.FindStringSubmatch(text)[1], true
 	case yodaRE.MatchString(text):
 		return "", yodaRE.FindStringSubmatch(text)[1], true
 	case oneTick.MatchString(text) && (strings.Contains(text, "re-write as") || strings.Contains(text, "rewrite as")):
